@@ -162,7 +162,7 @@ def main(tier):
         rep.ob('ceil.witness', 'inconclusive', detail='no witness: ' + r)
 
     # ------------------------------------------------------------------ per-rate linear twins (complete decision procedure)
-    t_rates = time.time(); nr = 0; rate_fail = False
+    t_rates = time.time(); nr = 0; rate_fail = False; skipped = []
     qs0 = st.queries
     for (N, D) in rate_list:
         exr = Exec(mod, stubs); exr.reset(); exr.ovf_mode = 'obligation'
@@ -193,9 +193,15 @@ def main(tier):
                   ('no_wrap', z3.And(*[c for _, c in exr.ovf]), lambda m: ('floor', smt.mval(m, k1), N, D))]
         if inv is not None:
             claims.append(('inverse ceil(floor(k))==k', inv, lambda m: ('inv', smt.mval(m, k1), N, D)))
+        core = (N, D) in rates.QUICK_RATES
         for nm, claim, mk in claims:
-            r, m, dt = smt.prove(pcr, claim, (), 120, st)
+            # the value obligations hold for ALL rates by the symbolic proofs above; for the extra (random) rates of the thorough tier only
+            # the per-rate-only laws (monotone, inverse) are attempted, with a short cap: their linear twins get expensive for huge denominators
+            if not core and floor_sym_ok and ceil_sym_ok and nm in ('floor.second', 'floor.picosecond', 'ceil.value', 'no_wrap'): continue
+            r, m, dt = smt.prove(pcr, claim, (), 120 if core else 20, st)
             if r == 'unsat': continue
+            if r != 'sat' and not core:
+                skipped.append('%d/%d: %s' % (N, D, nm)); continue
             rate_fail = True
             if r == 'sat':
                 case = mk(m)
@@ -208,6 +214,9 @@ def main(tier):
                '%d rates (n/d) x all k with time < year 9999, all (s,p)' % nr, st.queries - qs0, time.time() - t_rates, nr,
                sample={'rates': rate_list[:6], 'claims': ['floor.second', 'floor.picosecond', 'floor.monotone', 'ceil.value', 'inverse', 'no_wrap']})
     rep.extra['symbolic_rate_complete'] = {'floor': floor_sym_ok, 'ceil': ceil_sym_ok}
+    if skipped:
+        rep.extra['per_rate_undecided'] = skipped
+        rep.outside_claim('monotone / inverse law for %d extra rates whose linear twin was not decided within 20 s: %s' % (len(skipped), ', '.join(skipped[:8])))
 
     # ------------------------------------------------------------------ get_unix_time_rational: glue
     ex3 = Exec(mod, stubs)
